@@ -261,7 +261,8 @@ impl InnerFilter {
     }
 
     fn progress_filtertime(&mut self, time: Time, wander: f64, config: &KalmanConfiguration) {
-        debug_assert!(time >= self.filter_time);
+        // The clock may report a time slightly before the event time of a measurement
+        // that was already absorbed (the filter cannot go back in time).
         if time < self.filter_time {
             return;
         }
